@@ -90,12 +90,16 @@ class Contract:
                  raises=(), modifies=(), loops=(), assumed=False, pure=False,
                  self_type=None, ghost=None, fresh_result=False, notes='',
                  total=True, locals=None, may_raise_other=False, decreases=None,
-                 asserts=(), frame_carries=None, escape_carries=None, hints=(), inst=()):
+                 asserts=(), frame_carries=None, escape_carries=None, hints=(), inst=(),
+                 static_ensures=()):
         self.qualname = qualname
         self.params = dict(params or {})
         self.returns = returns
         self.requires = [Clause.of(c) for c in requires]
         self.ensures = [Clause.of(c) for c in ensures]
+        # facts about THIS body only (e.g. the exact class it constructs): proved like ensures, but
+        # assumed only at static calls `Class.method(self, ..)`, never through dynamic dispatch
+        self.static_ensures = [Clause.of(c) for c in static_ensures]
         self.raises = list(raises)
         self.modifies = list(modifies)
         self.loops = list(loops)
